@@ -525,21 +525,43 @@ HEADER = ("HEADER;\nFILE_DESCRIPTION((''),'2;1');\nFILE_NAME('','2000-01-01T00:0
           "FILE_SCHEMA(('{S}'));\nENDSEC;\n")
 
 
-def render(schema_name, insts, layout_rng=None, working=None):
-    """exchange file (working=None) or working-session file (working = list of state letters, one per instance)"""
+def gen_header(rng, schema_name, n_extra=None):
+    """body of a HEADER section in the writer's spelling: the three mandatory entities with random contents plus
+    `n_extra` (default random 0..3) of SECTION_LANGUAGE / SECTION_CONTEXT / FILE_POPULATION"""
+    w = lambda: rng.choice(["alpha", "bracket assembly", "gear box", "rev 7", "x", "o''brien"])
+    lst = lambda: "(" + ",".join("'" + w() + "'" for _ in range(rng.randint(1, 2))) + ")"
+    out = [f"FILE_DESCRIPTION({lst()},'2;1');",
+           f"FILE_NAME('{w()}.stp','2000-01-01T00:00:00',{lst()},{lst()},'{w()}','{w()}','{w()}');",
+           f"FILE_SCHEMA(('{schema_name.upper()}'));"]
+    extras = [f"SECTION_LANGUAGE($,'{rng.choice(['en', 'de', 'fr'])}');", f"SECTION_CONTEXT($,{lst()});",
+              f"FILE_POPULATION('{w()}','{w()}',$);"]
+    n = rng.randint(0, 3) if n_extra is None else n_extra
+    return "\n".join(out + extras[:n]) + "\n"
+
+
+def header_of(text):
+    """the HEADER section body of a file, FILE_NAME's time stamp masked"""
+    a, b = text.index("HEADER;") + 7, text.index("ENDSEC;")
+    return re.sub(r"(FILE_NAME\('(?:[^']|'')*',)'[^']*'", r"\1'<time>'", text[a:b].strip())
+
+
+def render(schema_name, insts, layout_rng=None, working=None, header=None):
+    """exchange file (working=None) or working-session file (working = list of state letters, one per instance);
+    header = body of the HEADER section (see gen_header), default a minimal three-entity header"""
     if layout_rng is None:
         sp = lambda: ""
     else:
         # white space only: a comment between a value and its delimiter, or inside an aggregate, trips a reader
         # defect that belongs to C01 (DESIGN section 6 row 19); comments are put between instances instead
         sp = lambda: layout_rng.choice(["", "", "", " ", "\n  ", "\t"])
+    hdr = (HEADER.replace("{S}", schema_name.upper()) if header is None else "HEADER;\n" + header + "ENDSEC;\n").rstrip("\n")
     if working is None:
-        out = ["ISO-10303-21;", HEADER.replace("{S}", schema_name.upper()).rstrip("\n"), "DATA;"]
+        out = ["ISO-10303-21;", hdr, "DATA;"]
         out += [(("/* c%d */ " % n) if layout_rng is not None and layout_rng.random() < 0.3 else "") + render_inst(i, sp)
                 for n, i in enumerate(insts)]
         out += ["ENDSEC;", "END-ISO-10303-21;"]
     else:
-        out = ["STEP_WORKING_SESSION;", HEADER.replace("{S}", schema_name.upper()).rstrip("\n"), "DATA;"]
+        out = ["STEP_WORKING_SESSION;", hdr, "DATA;"]
         out += [w + render_inst(i, sp) for w, i in zip(working, insts)]
         out += ["ENDSEC;", "END-STEP_WORKING_SESSION;"]
     return "\n".join(out) + "\n"
@@ -705,6 +727,25 @@ def add_comments(rng, insts, p=0.3):
             c.comment = rng.choice([f"/*note {k}*/", f"/*c{k}, with (punctuation); #7 = 'x'*/", f"/*first {k}*/\n/*second*/"])
         out.append(c)
     return out
+
+
+# strings that must survive everywhere a string may stand (incl. inside entries the reader only skips): every
+# delimiter of the file grammar inside a string literal
+TRICKY_STRS = ["';'", "'a;b'", "'size: M6; length: 20'", "'x;'", "';x'", "'ENDSEC;'", "'DATA;'", "'#2=ITEM(1);'", "'it''s; ok'",
+               "'" + "''" + ";'", "'('", "')'", "'(a;b)'", "'/* c */'", "'/*'", "'*/;'", "'$'", "'#7'", "'a,b'", "'C#1=X();'", "'D'"]
+
+
+def restring(rng, insts, pool, p=0.7):
+    """replace string literals (top level and inside aggregates / typed values) by strings from `pool`"""
+    def f(v):
+        if v[0] == "tok" and v[1].startswith("'"):
+            return ("tok", rng.choice(pool)) if rng.random() < p else v
+        if v[0] == "aggr":
+            return ("aggr", [f(x) for x in v[1]])
+        if v[0] == "typed":
+            return ("typed", v[1], f(v[2]))
+        return v
+    return [Inst(i.id, [(n, [f(v) for v in vs]) for n, vs in i.parts], i.comment) for i in insts]
 
 
 def tok_equal(a, b):
